@@ -1051,7 +1051,7 @@ class ParsedEvent(EDXMLEvent, etree.ElementBase):
         """
         props = self.find('{http://edxml.org/edxml}properties')
         if props is not None:
-            props[:] = sorted(props, key=lambda element: (element.tag, element.text))
+            props[:] = sorted(props, key=lambda element: (element.tag, element.text or ''))
 
         attachments = self.find('{http://edxml.org/edxml}attachments')
         if attachments is not None:
@@ -1489,7 +1489,7 @@ class EventElement(EDXMLEvent):
         """
         props = self.__element.find('properties')
         if props is not None:
-            props[:] = sorted(props, key=lambda element: (element.tag, element.text))
+            props[:] = sorted(props, key=lambda element: (element.tag, element.text or ''))
 
         attachments = self.__element.find('attachments')
         if attachments is not None:
